@@ -80,7 +80,7 @@ public:
     MetricAttributes result;
     attributes.ForEachKeyValue(
         [&](nostd::string_view key, opentelemetry::common::AttributeValue value) noexcept {
-          if (allowed_attribute_keys_.find(key.data()) != allowed_attribute_keys_.end())
+          if (allowed_attribute_keys_.find(std::string(key)) != allowed_attribute_keys_.end())
           {
             result.SetAttribute(key, value);
             return true;
@@ -94,7 +94,7 @@ public:
 
   bool isPresent(nostd::string_view key) const noexcept override
   {
-    return (allowed_attribute_keys_.find(key.data()) != allowed_attribute_keys_.end());
+    return (allowed_attribute_keys_.find(std::string(key)) != allowed_attribute_keys_.end());
   }
 
 private:
